@@ -376,7 +376,7 @@ func ruleWatchEveryWrite(c *Ctx) {
 		return
 	}
 	name, pos := funcName(fn), c.P.pos(fn.Pos())
-	n, writes := 0, 0
+	n, writes, waits := 0, 0, 0
 	bad := []string{}
 	sim := c.P.Simulate(fn, SimConfig{MaxVisits: 3}, func(pr *PathResult) {
 		n++
@@ -392,11 +392,31 @@ func ruleWatchEveryWrite(c *Ctx) {
 			}
 		}
 		writes += w
+		// the loop ends only when the watcher is closed (a channel reports !ok): an
+		// error value delivered by the watcher is not the end of watching
+		var last *Event
+		for _, e := range pr.Events {
+			if (e.Kind == "select" || e.Kind == "recv") && e.Depth == 0 {
+				last = e
+			}
+		}
+		if pr.Exit == "return" && last != nil {
+			waits++
+			closed := false
+			if last.Ok != nil {
+				if k, v := pr.Facts.Decide(last.Ok); k && !v {
+					closed = true
+				}
+			}
+			if !closed {
+				bad = append(bad, fmt.Sprintf("%s: Watch returns although the watcher is still open (nothing restarts it: every later change of the file is ignored) on path [%s]", c.P.pos(last.Instr.Pos()), condString(pr.Conds)))
+			}
+		}
 		if calls < w {
 			bad = append(bad, fmt.Sprintf("%d write event(s) received but onChange called %d time(s): a saved configuration is not applied until some later save, on path [%s]", w, calls, condString(pr.Conds)))
 		}
 	})
-	if sim.Overflow || writes == 0 {
+	if sim.Overflow || writes == 0 || waits == 0 {
 		c.undecided("watch-every-write", name, pos, "idiom not recognised")
 		return
 	}
